@@ -15,6 +15,22 @@ func init() {
 	replaySuites["server"] = replayServer
 }
 
+// serverBlockNum derives a block height from the id (so that op lines stay "push <id>"): mostly ascending in push
+// order, with regular dips — a fork block arrives with a lower number than blocks already buffered. Neither the
+// server nor the model may care.
+func serverBlockNum(id string) uint64 {
+	n, digits := 0, false
+	for _, c := range id {
+		if c >= '0' && c <= '9' {
+			n, digits = n*10+int(c-'0'), true
+		}
+	}
+	if !digits {
+		return 1
+	}
+	return uint64(100 + n - []int{0, 0, 2, 0, 3, 1, 0}[n%7])
+}
+
 func runServerCase(o *Out, buffered bool, size int, ops [][]string) {
 	o.Case("server", b2i(buffered), size)
 	var s *blockstream.Server
@@ -30,7 +46,7 @@ func runServerCase(o *Out, buffered bool, size int, ops [][]string) {
 		res := guarded(o, func() string {
 			switch ws[0] {
 			case "push":
-				err := s.PushBlock(&pbbstream.Block{Id: ws[1], Number: 1, ParentId: "p", Timestamp: ts})
+				err := s.PushBlock(&pbbstream.Block{Id: ws[1], Number: serverBlockNum(ws[1]), ParentId: "p", Timestamp: ts})
 				if err != nil {
 					return "err"
 				}
